@@ -13,6 +13,7 @@ RULE = ("cases = dataset (D2-D4, D9, D10, D11, Markov-like perturbations; severa
         "size >= 2, and is not one of the (unified) input rankings; distinct = digest of (dataset, scheme, config, seed)")
 ASSUMPTIONS = ["reference model vf/ref.py", "dyadic penalties incl. threshold scale: float sums exact", "n <= 16"]
 SUMMARY_KEYS = ["rankings_checked", "moves_priced", "gain_left_below_threshold"]
+THOROUGH_SCALE = 4
 CRASH_IS_VIOLATION = True
 CONFIGS = ["BioConsert", "BioConsert[Borda]", "BioConsert[Copeland,KwikSort]", "BioConsert[PickAPerm]", "BioCo"]
 FILES = ["corankco/algorithms/bioconsert/bioconsert.py"]
